@@ -185,6 +185,11 @@ func (r *Rows) Columns() []string {
 func (r *Rows) Next(dest []driver.Value) error {
 	row, ok := <-r.rows
 	if !ok {
+		if r.err == io.EOF {
+			// a read beyond the end of the file. A bare io.EOF would be
+			// taken for the regular end of the result set.
+			return io.ErrUnexpectedEOF
+		}
 		if r.err != nil {
 			return r.err
 		}
